@@ -189,7 +189,7 @@ theorem loadPushPromiseHead_eq (h : Head) (p : Bytes) :
       else
         let pad := if h.flag &&& 8 = 8 then p.getD 0 0 else 0
         let src := if h.flag &&& 8 = 8 then p.drop 1 else p
-        if src.length < 5 then .error .malformedMessage
+        if src.length < 4 then .error .malformedMessage
         else if pad > (src.drop 4).length then .error .tooMuchPadding
         else .ok (h.sid, (parseStreamId src).1, decide (h.flag &&& 4 = 4),
           (src.drop 4).take ((src.drop 4).length - pad)) := by
@@ -210,9 +210,9 @@ theorem loadPushPromiseHead_sound (h : Head) (p : Bytes) (x) (hl : loadPushPromi
     | cons pl rest =>
       simp only [reduceCtorEq, if_false, List.getD_cons_zero, List.drop_succ_cons, List.drop_zero] at hl
       simp only [Spec.Frame.unpad, if_true]
-      by_cases h5 : rest.length < 5
-      · rw [if_pos h5] at hl; cases hl
-      rw [if_neg h5] at hl
+      by_cases h4 : rest.length < 4
+      · rw [if_pos h4] at hl; cases hl
+      rw [if_neg h4] at hl
       by_cases hp : pl > (rest.drop 4).length
       · rw [if_pos hp] at hl; cases hl
       rw [if_neg hp] at hl
@@ -228,37 +228,17 @@ theorem loadPushPromiseHead_sound (h : Head) (p : Bytes) (x) (hl : loadPushPromi
       omega
   · simp only [h8, false_and, if_false, decide_false] at hl ⊢
     simp only [Spec.Frame.unpad, Bool.false_eq_true, if_false]
-    by_cases h5 : p.length < 5
-    · rw [if_pos h5] at hl; cases hl
-    rw [if_neg h5] at hl
-    rw [if_neg (by omega)]
+    by_cases h4 : p.length < 4
+    · rw [if_pos h4] at hl; cases hl
+    rw [if_neg h4] at hl ⊢
     simp only [Nat.not_lt_zero, gt_iff_lt, if_false, Nat.sub_zero, List.take_length, Except.ok.injEq] at hl
     subst hl
     simp only [pushPromiseToSpec, u31_eq]
 
-/-- THE EXCEPTION, exactly: `PushPromise::load` wants FIVE octets behind the Pad Length octet
-    (`if src.len() < 5`), the Promised Stream ID has four.  A PUSH_PROMISE whose payload is just the
-    promised id (empty fragment, the header block following in CONTINUATION frames — or a padded one
-    with Pad Length 0) is a valid §6.6 frame and gets a connection error PROTOCOL_ERROR from h2. -/
-theorem loadPushPromiseHead_four_octets (flags sid : Nat) (p : Bytes) (hs : sid ≠ 0)
-    (h8 : flags &&& 8 ≠ 8) (hp : p.length = 4) :
-    loadPushPromiseHead ⟨5, flags, sid⟩ p = .error .malformedMessage ∧
-    Spec.Frame.ofParts 5 flags sid p = .ok (.pushPromise sid (Spec.Frame.flag flags 4) (Spec.Frame.u31 p) []) := by
-  constructor
-  · rw [loadPushPromiseHead_eq]
-    simp [hs, h8, hp]
-  · simp only [Spec.Frame.ofParts, flag8]
-    simp [hs, h8, hp, Spec.Frame.unpad]
-
-/-- witness: `00 00 04 05 00 00 00 00 01 | 00 00 00 02` (PUSH_PROMISE on stream 1 promising stream 2,
-    no END_HEADERS: the block is to follow in CONTINUATION frames) -/
-example : loadPushPromiseHead ⟨5, 0, 1⟩ [0, 0, 0, 2] = .error .malformedMessage ∧
-    Spec.Frame.ofParts 5 0 1 [0, 0, 0, 2] = .ok (.pushPromise 1 false 2 []) := ⟨rfl, rfl⟩
-
-/-- apart from that, `PushPromise::load` accepts every §6.6 frame -/
+/-- `PushPromise::load` accepts every §6.6 frame (since the fix of the `< 5` length test: a payload of
+    just the promised stream id, the header block following in CONTINUATION frames, is accepted) -/
 theorem loadPushPromiseHead_complete (h : Head) (p : Bytes) (f' : Spec.Frame.Frame)
-    (hs : Spec.Frame.ofParts 5 h.flag h.sid p = .ok f')
-    (hlen : 5 ≤ (if h.flag &&& 8 = 8 then p.drop 1 else p).length) :
+    (hs : Spec.Frame.ofParts 5 h.flag h.sid p = .ok f') :
     ∃ x, loadPushPromiseHead h p = .ok x ∧ pushPromiseToSpec x = f' := by
   cases hl : loadPushPromiseHead h p with
   | ok x => exact ⟨x, rfl, by have := loadPushPromiseHead_sound h p x hl; rw [hs] at this; exact (Except.ok.inj this).symm⟩
@@ -270,11 +250,11 @@ theorem loadPushPromiseHead_complete (h : Head) (p : Bytes) (f' : Spec.Frame.Fra
     · simp [hs0] at hs
     rw [if_neg hs0] at hl hs
     by_cases h8 : h.flag &&& 8 = 8
-    · simp only [h8, true_and, if_true, decide_true] at hl hs hlen
+    · simp only [h8, true_and, if_true, decide_true] at hl hs
       cases p with
       | nil => simp [Spec.Frame.unpad] at hs
       | cons pl rest =>
-        simp only [reduceCtorEq, if_false, List.getD_cons_zero, List.drop_succ_cons, List.drop_zero] at hl hlen
+        simp only [reduceCtorEq, if_false, List.getD_cons_zero, List.drop_succ_cons, List.drop_zero] at hl
         simp only [Spec.Frame.unpad, if_true] at hs
         by_cases hp : pl > rest.length
         · rw [if_pos hp] at hs; cases hs
@@ -284,8 +264,71 @@ theorem loadPushPromiseHead_complete (h : Head) (p : Bytes) (f' : Spec.Frame.Fra
         · rw [if_pos h4] at hs; cases hs
         rw [if_neg (by omega), if_neg (by simp only [List.length_drop]; omega)] at hl
         cases hl
-    · simp only [h8, false_and, if_false] at hl hlen
-      rw [if_neg (by omega)] at hl
+    · simp only [h8, false_and, if_false, decide_false] at hl hs
+      simp only [Spec.Frame.unpad, Bool.false_eq_true, if_false] at hs
+      by_cases h4 : p.length < 4
+      · rw [if_pos h4] at hs; cases hs
+      rw [if_neg h4] at hl
       simp at hl
+
+theorem loadPushPromiseHead_error (h : Head) (p : Bytes) (v : Spec.Frame.Violation)
+    (hs : Spec.Frame.ofParts 5 h.flag h.sid p = .error v) : ∃ e, loadPushPromiseHead h p = .error e :=
+  error_of_sound (fun x hx => ⟨_, loadPushPromiseHead_sound h p x hx⟩) v hs
+
+/-- regression witness for the former finding: `00 00 04 05 00 00 00 00 01 | 00 00 00 02`
+    (PUSH_PROMISE on stream 1 promising stream 2, no END_HEADERS, empty fragment) now loads -/
+example : loadPushPromiseHead ⟨5, 0, 1⟩ [0, 0, 0, 2] = .ok (1, 2, false, []) ∧
+    Spec.Frame.ofParts 5 0 1 [0, 0, 0, 2] = .ok (.pushPromise 1 false 2 []) := ⟨rfl, rfl⟩
+
+-- ===================================================================== summary of B for header frames
+
+/-- PUSH_PROMISE framing: `PushPromise::load` and RFC 9113 §6.6 agree exactly — same frames accepted,
+    same content, same frames rejected -/
+theorem loadPushPromiseHead_exact (h : Head) (p : Bytes) :
+    (∀ x, loadPushPromiseHead h p = .ok x → Spec.Frame.ofParts 5 h.flag h.sid p = .ok (pushPromiseToSpec x)) ∧
+    (∀ f', Spec.Frame.ofParts 5 h.flag h.sid p = .ok f' →
+      ∃ x, loadPushPromiseHead h p = .ok x ∧ pushPromiseToSpec x = f') ∧
+    ((∃ e, loadPushPromiseHead h p = .error e) ↔ (∃ v, Spec.Frame.ofParts 5 h.flag h.sid p = .error v)) := by
+  refine ⟨loadPushPromiseHead_sound h p, loadPushPromiseHead_complete h p, ?_, ?_⟩
+  · rintro ⟨e, he⟩
+    cases hs : Spec.Frame.ofParts 5 h.flag h.sid p with
+    | error v => exact ⟨v, rfl⟩
+    | ok f' =>
+      obtain ⟨x, hx, _⟩ := loadPushPromiseHead_complete h p f' hs
+      rw [he] at hx; cases hx
+  · rintro ⟨v, hv⟩
+    exact loadPushPromiseHead_error h p v hv
+
+/-- HEADERS framing: `Headers::load` and RFC 9113 §6.2 agree exactly, except that h2 also refuses a
+    priority block naming the frame's own stream (RFC 7540 §5.3.1, `InvalidDependencyId`):
+    sound; complete for every frame that is not self-dependent; and a frame the RFC accepts is
+    refused only with `InvalidDependencyId`, only when self-dependent. -/
+theorem loadHeadersHead_exact_except_self_dependency (h : Head) (p : Bytes) :
+    (∀ x, loadHeadersHead h p = .ok x → Spec.Frame.ofParts 1 h.flag h.sid p = .ok (headersToSpec x)) ∧
+    (∀ f', Spec.Frame.ofParts 1 h.flag h.sid p = .ok f' →
+      (∀ sid eos eh pr frag, f' = .headers sid eos eh (some pr) frag → pr.dependency ≠ sid) →
+      ∃ x, loadHeadersHead h p = .ok x ∧ headersToSpec x = f') ∧
+    (∀ v, Spec.Frame.ofParts 1 h.flag h.sid p = .error v → ∃ e, loadHeadersHead h p = .error e) ∧
+    (∀ f' e, Spec.Frame.ofParts 1 h.flag h.sid p = .ok f' → loadHeadersHead h p = .error e →
+      ∃ sid eos eh pr frag, f' = .headers sid eos eh (some pr) frag ∧ pr.dependency = sid) := by
+  refine ⟨loadHeadersHead_sound h p, loadHeadersHead_complete h p, ?_, ?_⟩
+  · exact error_of_sound (fun x hx => ⟨_, loadHeadersHead_sound h p x hx⟩)
+  · intro f' e hs he
+    have key : (∀ sid eos eh pr frag, f' = Spec.Frame.Frame.headers sid eos eh (some pr) frag → pr.dependency ≠ sid) → False := by
+      intro hself
+      obtain ⟨x, hx, _⟩ := loadHeadersHead_complete h p f' hs hself
+      rw [he] at hx; cases hx
+    cases f' with
+    | headers sid eos eh prio frag =>
+      cases prio with
+      | none => exact (key (fun _ _ _ _ _ hf => by cases hf)).elim
+      | some pr =>
+        by_cases hd : pr.dependency = sid
+        · exact ⟨sid, eos, eh, pr, frag, rfl, hd⟩
+        · refine (key (fun sid' eos' eh' pr' frag' hf => ?_)).elim
+          simp only [Spec.Frame.Frame.headers.injEq, Option.some.injEq] at hf
+          obtain ⟨rfl, _, _, rfl, _⟩ := hf
+          exact hd
+    | _ => exact (key (fun _ _ _ _ _ hf => by cases hf)).elim
 
 end H2V.Lemmas.Codec
